@@ -19,6 +19,8 @@ C01 tables, regenerated from the AST of the working tree on every check  ->  lea
     functions returning a tainted value become sources for their callers) and its SINKS:
         field:<key>        value stored under a dict key (`{"ms": x}`, `m["ms"] = x`)
         decision:<test>    appears in the test of an if/while/ternary/assert/comparison
+        entropy-use:<stmt> a builtin hash()/id() value that is USED (anything but a discarded bare call): always `leak`
+                           unless pinned — str/bytes hashes depend on PYTHONHASHSEED, id() on the allocator
         return             returned (callers are analysed as readers)
         attr:<name> / arg:<callee>   stored on an object / passed to a call statement
     and a verdict:
@@ -678,6 +680,18 @@ def scan_clock_reads(repo: Path):
                             for i, a in enumerate(n.args):
                                 if is_tainted(a) and not isinstance(a, ast.Dict):
                                     sinks.add(f"arg:{nm}#{i}")
+                # builtin hash()/id(): PYTHONHASHSEED / address entropy.  The only harmless use is a DISCARDED value
+                # (the hashability probe `hash(key)` as a bare statement); any other use — index, modulo, comparison,
+                # sort key, stored, returned, passed on — can reach an ordering or an output.
+                for n, k in reads:
+                    if k in ("builtins.hash", "builtins.id") and not isinstance(par.get(n), ast.Expr):
+                        ctxn = par.get(n)
+                        hops = 0
+                        while ctxn is not None and not isinstance(ctxn, ast.stmt) and hops < 12:
+                            ctxn = par.get(ctxn)
+                            hops += 1
+                        txt = " ".join(ast.unparse(ctxn).split())[:70] if ctxn is not None else "?"
+                        sinks.add(f"entropy-use:{k.split('.')[-1]}:{txt}")
                 fname = fn.name if fn is not tree else "<module>"
                 qual = (_qual(fn, par) + "." + fn.name).lstrip(".") if fn is not tree else "<module>"
                 qual = qual.replace("<module>.", "")
